@@ -54,6 +54,7 @@ kf("K2-C13", "P13 math-row-trailing-comma", "C13", r"^C13\|splice-changes-tree\|
 P16 = "two adjacent block comments inside math delimiters get a space between them: whitespace is created between math atoms where the source had none"
 kf("K3-C01", "P16 math-adjacent-comments", "C01", r"^C01\|tree\|(.*&)?dev=math:\w+>MathDelimited\[[^\]]*\]:bc_bc", "$(/*c1*//*c2*/x)$", P16, "tree")
 kf("K3-C03", "P16 math-adjacent-comments", "C03", r"^C03\|not-idempotent\|(.*&)?dev=math:\w+>(MathDelimited|MathFrac|MathAttach|MathRoot)\[[^\]]*\]:(bc_bc|bc|lc|lc_sp|lc_lc|nl_lc|bc_sp|off_lc|off_bc|off_tight|off_reason|off_mid)[|&]", "$f(#1//c1\n)$", "a comment inside math delimiters gets its separating space from two places; the second pass adds another space (converges after two passes)", "not-idempotent")
+kf("K3b-C09", "P16 math-adjacent-comments", "C09", r"^C09\|ws-added\|(.*&)?dev=math:\w+>MathDelimited\[[^\]]*\]:bc_bc", "$(/*c1*//*c2*/x)$", P16, "ws-added")
 kf("K3-C09", "P16 math-adjacent-comments", "C09", r"^C09\|ws-added\|extra=math:\w+:(.*[+⏎_])?/\*c\*/\+/\*c\*/", "$(/*c*//*c*/)$", P16, "ws-added")
 
 # --------------------------------------------------------------------------- K4: line break before a comment in math becomes a space (P17)
@@ -76,7 +77,7 @@ P1 = "'#(auto)bar', '#(1)a', '#(none)x': the parentheses around a literal embedd
 kf("K7-C08", "P1 paren-removal-fuses-literal", "C08", r"^C08\|text-changed\|(.*&)?dev=markup:\S*>Markup\[RightParen\^Text\]:none", "foo #(auto)bar", P1, "text-changed")
 kf("K7-C01", "P1 paren-removal-fuses-literal", "C01", r"^C01\|tree\|(spine=\w+/hash_tight@0/paren\d?@0/|(.*&)?dev=markup:\S*>Markup\[RightParen\^Text\]:none)", "#(1)foo", P1, "tree")
 kf("K7-C04", "P1 paren-removal-fuses-literal", "C04", r"^C04\|erroneous-output\|(spine=\w+/hash_tight@0/paren\d?@0/|(.*&)?dev=markup:\S*>Markup\[RightParen\^Text\]:none)", "#(1)foo", P1 + " ('#1foo' is a number with an invalid suffix)", "erroneous-output")
-kf("K7-C10", "P1 paren-removal-fuses-literal", "C10", r"^C10\|literal-changed\|(.*&)?dev=markup:\S*>Markup\[RightParen\^Text\]:none", "foo #(auto)bar", P1, "literal-changed")
+kf("K7-C10", "P1 paren-removal-fuses-literal", "C10", r"^C10\|literal-changed\|((.*&)?dev=markup:\S*>Markup\[RightParen\^Text\]:none|extra=lit:[\w+]+@\w+/hash_tight@0/paren)", "foo #(auto)bar", P1, "literal-changed")
 
 # --------------------------------------------------------------------------- K8: convergence classes
 E = "a node that always breaks (code block with two statements or with a comment, an import list at width 0, a table) inside a context where line breaks are suppressed (a line of text, an equation): the first pass emits the hard breaks inside an otherwise flat layout, the second pass then sees a multi-line source and lays the surroundings out differently (converges after two passes)"
@@ -127,6 +128,7 @@ FIXED = [
   fixed("C19", "do not reorder import items when a comment sits inside an item", "'import \"m\": b as c, a./*c*/d' was sorted although it contains a comment"),
   fixed("C03", "cap the blank lines kept before and after a list separator together", "blank lines before and after a comma were capped separately: up to four survived the first run, the next run reduced them"),
   fixed("C19", "sort import items by their text with blanks normalised", "with reordering on, 'a  as y, a as x' (two blanks) kept its order in the first run and was swapped by the second (also C03)"),
+  fixed("C10", "keep the parentheses around a float literal that ends with a dot", "'(1.).f' was printed as '1..f' (also C01)"),
   fixed("C01", "a list item on a later line must not strip the leading space of a content block", "'foo #[ text<newline>- item ] bar' lost the space after '['"),
 ]
 
